@@ -1,6 +1,7 @@
 (* C08 - The module list reflects the loaded ELF images.  Property theorems only (list structure). *)
 From Coq Require Import List NArith Arith.
 From MDW Require Import Bytes Maps EffPath SoVersion ThreadList Modules ModulesProofs.
+From MDW Require MemWriter Writer Hoare MiniDump Text Image ImageThreads.
 Import ListNotations.
 Local Open Scope N_scope.
 
@@ -38,3 +39,15 @@ Print Assumptions C08_users_verbatim.
 Theorem C08_version_parser_total : forall s, SoVersion.parse true s <> SoVersion.Panic.
 Proof. exact parse_fixed_total. Qed.
 Print Assumptions C08_version_parser_total.
+
+(* The module list in the FINAL image of every dump: one record per module of the content, in order; each record carries the
+   module itself (base, size, version) and stores the locations of exactly its name (as a MINIDUMP_STRING) and - when the module
+   has an identifier - of exactly its CodeView record (signature + identifier); with no identifier the location is empty. *)
+Theorem C08_whole_image_module_list : forall c dirs lg s',
+  Image.image c MiniDump.empty_wst = MemWriter.Ok ((dirs, lg), s') -> Hoare.small (Hoare.blen s') ->
+  exists rs off,
+    ImageThreads.run_rel (ImageThreads.module_says 248) (Writer.w_buf s') (Image.ic_modules c) tt rs tt /\
+    Bytes.slice (Writer.w_buf s') off (4 + Image.MODULE_SZ * length rs) = Bytes.le 4 (N.of_nat (length rs)) ++ concat (map Image.enc_module rs) /\
+    In (Image.T_MODULES, {| MemWriter.l_rva := N.of_nat off; MemWriter.l_size := (4 + N.of_nat (Image.MODULE_SZ * length rs))%N |}) dirs.
+Proof. exact ImageThreads.image_module_list. Qed.
+Print Assumptions C08_whole_image_module_list.
